@@ -48,6 +48,8 @@ VARS = "abc"
 PLATES = "ijk"
 PROFILES = {
     "q": {"a": 2, "b": 2, "i": 2, "j": 3},
+    "s": {"a": 2, "b": 2, "i": 2, "j": 1},  # a plate of size 1 (ties in any size-based choice of the algorithm)
+    "r": {"a": 2, "b": 2, "i": 1, "j": 3},
     "t": {"a": 2, "b": 2, "c": 2, "i": 2, "j": 3, "k": 1},
     "u": {"a": 2, "b": 2, "c": 2, "i": 2, "j": 3, "k": 2},
 }
@@ -212,6 +214,8 @@ LEVELS = {
     # thorough, 3 variables / 3 plates: every eliminate set in one call; splits and scales of the full set
     "big": dict(E="all", one=("psp0", "psp1", "mod", "einsum"), splits="full", scales="full"),
     "big-psp": dict(E="full-1", one=("psp0",)),
+    "unit": dict(E="full-1", one=ALL_ONE, splits="full", scales="full"),
+    "unit-psp": dict(E="full-1", one=("psp0", "sp")),
     "edge": dict(E="full-1", one=("psp0", "sp"), scales="full"),
     "four": dict(E="full-1", one=("psp0", "dyn")),
 }
@@ -219,19 +223,35 @@ LEVELS = {
 
 def plan(tier):
     """[(size profile, graph list, semiring indices, level name)]"""
+    g22 = graphs(2, 2, 3)
+    g22r = _reversed(g22)
+    # size-1 plates and both listing orders of the factors (the order decides ties between plate sets, and the
+    # position decides the axis layout): full eliminate set and all-but-one
+    unit_plate = [
+        ("s", g22, (0, 1), "unit"),
+        ("s", g22r, (0, 1), "unit"),
+        ("r", g22, (0,), "unit-psp"),
+        ("r", g22r, (0,), "unit-psp"),
+        ("q", g22r, (0, 1, 2), "unit-psp"),
+    ]
     if tier == "quick":
-        return [("q", graphs(2, 2, 3), (0, 1, 2), "q3")]
+        return [("q", g22, (0, 1, 2), "q3")] + unit_plate
     # 3 variables / 3 plates: variable relabelling removed (all variables have size 2 and no tie-break of the
     # algorithm reads a variable name); plates are never relabelled (sizes differ or are tie-break positions)
     g33 = [g for g in graphs(3, 3, 3, canonical=True) if _beyond(g, 2, 2)]
     g4 = [g for g in graphs(3, 3, 4, canonical=True) if len(g) == 4 and _connected(g)]
-    return [
-        ("q", graphs(2, 2, 3), (0, 1, 2), "t3"),
+    return unit_plate + [
+        ("q", g22, (0, 1, 2), "t3"),
         ("u", g33, (0,), "big"),
         ("u", g33, (1, 2), "big-psp"),
         ("t", g33, (0,), "edge"),  # third plate of size 1
         ("u", g4, (0,), "four"),
     ]
+
+
+def _reversed(gs):
+    """The same graphs with their factors listed in the opposite order (where that is a different list)."""
+    return [tuple(reversed(g)) for g in gs if tuple(reversed(g)) != tuple(g)]
 
 
 def _beyond(g, nvars, nplates):
@@ -262,6 +282,8 @@ def bounds(tier):
         "4-factor graphs: only those whose factors are linked through shared variables; eliminate sets = all names "
         "and all names but one",
         "factor k is laid out with its inputs reversed when k is odd",
+        "factors are listed smallest shape first; the opposite listing order only in the plan entries over reversed "
+        "graph lists (levels unit / unit-psp)",
     ]
     out["scales"] = list(SCALES)
     out["real_parameter_points"] = 2
